@@ -209,9 +209,9 @@ def _texpr(n, env):
         return ('(negb %s)' % e, 'bool')
     if isinstance(n, ast.List):
         parts = [_texpr(e, env) for e in n.elts]
-        need(len({t for _, t in parts}) <= 1 and all(t in ('string', 'Z') for _, t in parts), 'kernel: list literal %s' % key[:80])
+        need(len({t for _, t in parts}) <= 1 and all(t in ('string', 'Z', 'string * string') for _, t in parts), 'kernel: list literal %s' % key[:80])
         ty = parts[0][1] if parts else 'string'
-        return ('[' + '; '.join(e for e, _ in parts) + ']', 'list ' + ty)
+        return ('[' + '; '.join(e for e, _ in parts) + ']', 'list (%s)' % ty if ' ' in ty else 'list ' + ty)
     if isinstance(n, ast.BinOp) and isinstance(n.op, ast.Mod) and isinstance(n.left, ast.Constant) and isinstance(n.left.value, str):
         # 'text %d text' % <integer>: the decimal rendering of the integer between the two pieces of text
         fmt = n.left.value
@@ -254,6 +254,11 @@ def _texpr(n, env):
             need(tx == 'string' and ls is not None and len(ls) == 1, 'kernel: find with a non-literal argument')
             r = '(match index 0 %s %s with Some _ => true | None => false end)' % (cstr(ls[0]), x)
             return (r if isinstance(op, ast.NotEq) else '(negb %s)' % r, 'bool')
+        if isinstance(op, (ast.Is, ast.IsNot)) and isinstance(rhs, ast.Constant) and rhs.value is None:
+            a, ta = _texpr(n.left, env)
+            need(ta == 'option string', 'kernel: `is None` on %s' % ta)
+            r = '(match %s with Some _ => false | None => true end)' % a
+            return (r if isinstance(op, ast.Is) else '(negb %s)' % r, 'bool')
         if isinstance(op, (ast.Is, ast.IsNot)):
             a, ta = _texpr(n.left, env)
             need(ta == 'bool' and isinstance(rhs, ast.Constant) and isinstance(rhs.value, bool), 'kernel: `is` other than <bool> is True/False: %s' % key[:80])
@@ -321,6 +326,13 @@ def _texpr(n, env):
             (l, tl), (x, tx) = _texpr(f.value, env), _texpr(n.args[0], env)
             need((tl, tx) in (('list Z', 'Z'), ('list string', 'string')), 'kernel: index on %s' % tl)
             return ('(%s %s %s)' % ('src_zindex' if tx == 'Z' else 'src_sindex', x, l), 'Z')
+        if isinstance(f, ast.Name) and f.id == '__somes_map__' and len(n.args) == 3:
+            var, elt, it = n.args
+            l, tl = _texpr(it, env)
+            need(tl == 'list (option string)', 'kernel: loop over %s' % tl)
+            env2 = dict(env); env2[var.id] = ('c_' + var.id, 'string')
+            e, te = _texpr(elt, env2)
+            return ('(flat_map (fun o_ => match o_ with Some c_%s => [%s] | None => [] end) %s)' % (var.id, e, l), 'list (%s)' % te if ' ' in te else 'list ' + te)
         if isinstance(f, ast.Name) and f.id == 'pow' and len(n.args) == 2 and not n.keywords:
             (a, ta), (b, tb) = _texpr(n.args[0], env), _texpr(n.args[1], env)
             need(ta == tb == 'Z', 'kernel: pow on %s, %s' % (ta, tb))
@@ -335,7 +347,9 @@ def _texpr(n, env):
             return (x, 'bool')
         if isinstance(f, ast.Name) and f.id == 'len' and len(n.args) == 1:
             x, tx = _texpr(n.args[0], env)
-            need(tx in ('string', 'list string', 'list Z'), 'kernel: len of %s' % tx)
+            if tx == 'option string':      # len(x) of a value the source has just tested with `is not None`
+                return ('(Z.of_nat (String.length (match %s with Some s_ => s_ | None => EmptyString end)))' % x, 'Z')
+            need(tx in ('string', 'list string', 'list Z', 'list (list (option string))', 'list (string * string)', 'list (option string)'), 'kernel: len of %s' % tx)
             return ('(Z.of_nat (%s %s))' % ('String.length' if tx == 'string' else 'List.length', x), 'Z')
     if isinstance(n, ast.ListComp) and len(n.generators) == 1 and isinstance(n.elt, ast.Name) and isinstance(n.generators[0].target, ast.Name) \
             and n.elt.id == n.generators[0].target.id and len(n.generators[0].ifs) == 1 and not n.generators[0].is_async:
@@ -349,6 +363,8 @@ def _texpr(n, env):
         return ('(filter (fun c_%s => %s) %s)' % (g.target.id, c, l), 'list string')
     if isinstance(n, ast.Tuple) and n.elts:
         parts = [_texpr(e, env) for e in n.elts]
+        # an optional string stored as a string (the source has tested it with `is not None` on this path): its content
+        parts = [(('(match %s with Some s_ => s_ | None => EmptyString end)' % e, 'string') if t == 'option string' else (e, t)) for e, t in parts]
         return ('(' + ', '.join(e for e, _ in parts) + ')', ' * '.join(t for _, t in parts))
     if isinstance(n, ast.Subscript) and isinstance(n.slice, ast.Slice):
         x, tx = _texpr(n.value, env)
@@ -359,6 +375,10 @@ def _texpr(n, env):
         if sl.upper is None and isinstance(sl.lower, ast.Constant) and isinstance(sl.lower.value, int) and sl.lower.value >= 0:
             return ('(str_skip %d %s)' % (sl.lower.value, x), 'string')   # s[k:]
         need(False, 'kernel: slice %s' % key[:60])
+    if isinstance(n, ast.Subscript) and not isinstance(n.slice, ast.Slice) and _texpr(n.value, env)[1] == 'list (list (option string))':
+        (l, tl), (i, ti) = _texpr(n.value, env), _texpr(n.slice, env)
+        need(ti == 'Z', 'kernel: subscript of an entry by %s' % ti)
+        return ('(nth (Z.to_nat %s) %s [])' % (i, l), 'list (option string)')      # for an index within the entry (guarded by the length test in the source)
     if isinstance(n, ast.Subscript) and not isinstance(n.slice, ast.Slice):
         (l, tl), (i, ti) = _texpr(n.value, env), _texpr(n.slice, env)
         need(tl == 'list Z' and ti == 'Z', 'kernel: subscript of %s by %s' % (tl, ti))
@@ -387,7 +407,15 @@ def _guard_continue(body):
         if isinstance(st, ast.If) and len(st.body) == 1 and isinstance(st.body[0], ast.Continue) and not st.orelse:
             rest = _guard_continue(body[k + 1:])
             return body[:k] + ([ast.If(test=ast.UnaryOp(op=ast.Not(), operand=st.test), body=rest, orelse=[])] if rest else [])
-        need(not any(isinstance(x, (ast.Continue, ast.Break)) for x in ast.walk(st)), 'kernel: continue / break in a place other than `if c: continue` at the level of the loop body')
+        def own_jumps(node):     # continue / break that belong to THIS loop (those of nested loops are theirs)
+            for ch in ast.iter_child_nodes(node):
+                if isinstance(ch, (ast.For, ast.While)):
+                    continue
+                if isinstance(ch, (ast.Continue, ast.Break)):
+                    yield ch
+                yield from own_jumps(ch)
+        need(not isinstance(st, (ast.Continue, ast.Break)) and (isinstance(st, (ast.For, ast.While)) or not list(own_jumps(st))),
+             'kernel: continue / break in a place other than `if c: continue` at the level of the loop body')
     return body
 
 
@@ -410,8 +438,28 @@ def _norm_stmts(stmts):
             # for i in range(a, b) with constant bounds: unrolled, i replaced by its value; `if c: continue` guards the rest of the body
             rng_ = range(*[a.value for a in st.iter.args])
             need(len(rng_) <= 8, 'kernel: range loop of %d iterations' % len(rng_))
+            reassigned = any(isinstance(x, ast.Name) and x.id == st.target.id and isinstance(x.ctx, ast.Store) for b in st.body for x in ast.walk(b))
             for i in rng_:
-                out += _norm_stmts(_guard_continue([_subst_const(b, st.target.id, i) for b in st.body]))
+                if reassigned:
+                    out.append(ast.Assign(targets=[ast.Name(id=st.target.id, ctx=ast.Store())], value=ast.Constant(value=i)))
+                    out += _norm_stmts(_guard_continue(list(st.body)))
+                else:
+                    out += _norm_stmts(_guard_continue([_subst_const(b, st.target.id, i) for b in st.body]))
+        elif isinstance(st, ast.For) and isinstance(st.target, ast.Tuple) and len(st.target.elts) == 2 and isinstance(st.iter, ast.Call) and getattr(st.iter.func, 'id', None) == 'enumerate' \
+                and len(st.iter.args) == 1 and isinstance(st.iter.args[0], ast.List) and all(isinstance(e, ast.Constant) for e in st.iter.args[0].elts) and not st.orelse:
+            # for i, x in enumerate([c0, c1, ...]): unrolled; the loop variables are ordinary variables (they may be reassigned in the body)
+            need(len(st.iter.args[0].elts) <= 8, 'kernel: enumerate loop of %d iterations' % len(st.iter.args[0].elts))
+            for i, c in enumerate(st.iter.args[0].elts):
+                out.append(ast.Assign(targets=[ast.Name(id=st.target.elts[0].id, ctx=ast.Store())], value=ast.Constant(value=i)))
+                out.append(ast.Assign(targets=[ast.Name(id=st.target.elts[1].id, ctx=ast.Store())], value=c))
+                out += _norm_stmts(_guard_continue(list(st.body)))
+        elif isinstance(st, ast.For) and isinstance(st.target, ast.Name) and not st.orelse and len(st.body) == 2 and isinstance(st.body[0], ast.If) \
+                and ast.unparse(st.body[0].test) == '%s is None' % st.target.id and len(st.body[0].body) == 1 and isinstance(st.body[0].body[0], ast.Continue) and not st.body[0].orelse \
+                and isinstance(st.body[1], ast.Expr) and isinstance(st.body[1].value, ast.Call) and isinstance(st.body[1].value.func, ast.Attribute) and st.body[1].value.func.attr == 'append':
+            # for t in <list of optional strings>: if t is None: continue; acc.append(f(t))   ->   acc += [f(t) for the present entries]
+            call = st.body[1].value
+            out.append(ast.AugAssign(target=ast.Name(id=call.func.value.id, ctx=ast.Store()), op=ast.Add(),
+                                     value=ast.Call(func=ast.Name(id='__somes_map__', ctx=ast.Load()), args=[ast.Name(id=st.target.id, ctx=ast.Load()), call.args[0], st.iter], keywords=[])))
         elif isinstance(st, ast.Expr) and isinstance(st.value, ast.Constant) and isinstance(st.value.value, str):
             pass    # docstring / bare string
         else:
@@ -1126,6 +1174,22 @@ def main(out_path):
         need(len(sp) == 1 and isinstance(sp[0].body[0], ast.Continue) and ast.unparse(sp[0].test) == 'algorithm_recommendation_suppress_list is not None and name in algorithm_recommendation_suppress_list',
              'get_algorithm_recommendations: suppression test')
     soft('recommendation decisions (Algorithms.get_recommendations, get_algorithm_recommendations)', ['C13'], ex_recs)
+
+    def ex_alg_texts():
+        # output_algorithm(): the notes of a name the database knows: `if alg_name_native in alg_db[alg_type]:` body (texts starts empty), and the unknown branch
+        oa = func_node(t_main, 'output_algorithm')
+        known = [n for n in ast.walk(oa) if isinstance(n, ast.If) and ast.unparse(n.test) == 'alg_name_native in alg_db[alg_type]']
+        need(len(known) == 1, 'output_algorithm: the known-name test')
+        need(any(ast.unparse(n) == 'texts = []' for n in oa.body), 'output_algorithm: texts starts empty')
+        body = known[0].body
+        need(ast.unparse(body[0]) == 'alg_desc = alg_db[alg_type][alg_name_native]', 'output_algorithm: the entry is looked up under the native name')
+        ins = {'Algorithm.get_since_text(versions)': ('since', 'option string'), 'texts': ('(@nil (string * string))', 'list (string * string)')}
+        w(kernel('src_alg_texts_known', [('alg_desc', 'list (list (option string))'), ('since', 'option string')], body[1:], inputs=ins, result='texts'))
+        # `versions` handed to get_since_text is component 0 of the entry
+        need(any(ast.unparse(n) == 'versions = alg_desc[0]' for n in ast.walk(known[0])), 'output_algorithm: versions = alg_desc[0]')
+        unk = known[0].orelse
+        need(len(unk) == 2 and ast.unparse(unk[0]) == "texts.append(('warn', 'unknown algorithm'))", 'output_algorithm: the unknown-name branch: %r' % ([ast.unparse(x)[:60] for x in unk],))
+    soft('notes of one algorithm (output_algorithm)', ['C03'], ex_alg_texts)
 
     def ex_first_packet():
         # audit(): what the first packet leads to - the automatic SSH-1 retry, and which message types are an error
